@@ -1,6 +1,8 @@
 import TaskModel.Resolve.GlobLemmas
 import TaskModel.Resolve.Table
 import TaskModel.Resolve.Suggest
+import TaskModel.Resolve.OfLoad
+import TaskModel.Load.OrderLemmas
 import TaskModel.Gen.ResolveOrder
 /-!
 # C15 — Task name resolution: exact name, then wildcard, then unique alias
@@ -249,6 +251,56 @@ theorem C15_first_wildcard (tbl : List Entry) (req : Str)
     · have := hw e (List.mem_of_getElem? hi)
       rw [this] at hm; cases hm
 
+/-- **Parent file first.**  If the names `own` (the tasks of the including file, in file order)
+are a prefix of the table's names — what every merge guarantees (`load_root_prefix`) — then a
+request without exact match that one of them matches as a pattern resolves to the FIRST such
+own task, with its wildcard values, whatever patterns the tasks merged in from included
+files (they come later in the table) would match. -/
+theorem C15_parent_first (tbl : List Entry) (own : List Str) (hpre : own <+: tbl.map (·.name)) (req : Str)
+    (hne : ∀ e ∈ tbl, e.name ≠ req) (i : Nat) (p : Str) (ws : List Str)
+    (hi : own[i]? = some p) (hm : wildcardMatch p req = some ws)
+    (hfirst : ∀ j, j < i → ∀ p', own[j]? = some p' → wildcardMatch p' req = none) :
+    ∃ e, tbl[i]? = some e ∧ e.name = p ∧ resolve tbl req = .found i ws := by
+  obtain ⟨rest, hrest⟩ := hpre
+  have hlook : ∀ (k : Nat) (q : Str), own[k]? = some q → ∃ e : Entry, tbl[k]? = some e ∧ e.name = q := by
+    intro k q hk
+    have hlt : k < own.length := by
+      rcases Nat.lt_or_ge k own.length with h | h
+      · exact h
+      · rw [List.getElem?_eq_none h] at hk; cases hk
+    have h1 : (tbl.map (·.name))[k]? = some q := by
+      rw [← hrest, List.getElem?_append_left hlt]; exact hk
+    rw [List.getElem?_map] at h1
+    cases he : tbl[k]? with
+    | none => rw [he] at h1; cases h1
+    | some e => rw [he] at h1; simp only [Option.map_some, Option.some.injEq] at h1; exact ⟨e, rfl, h1⟩
+  have hown : ∀ (k : Nat) (e : Entry), k < own.length → tbl[k]? = some e → own[k]? = some e.name := by
+    intro k e hk he
+    have h1 : (tbl.map (·.name))[k]? = some e.name := by rw [List.getElem?_map, he]; rfl
+    rw [← hrest, List.getElem?_append_left hk] at h1
+    exact h1
+  obtain ⟨e, he, hn⟩ := hlook i p hi
+  have hilt : i < own.length := by
+    rcases Nat.lt_or_ge i own.length with h | h
+    · exact h
+    · rw [List.getElem?_eq_none h] at hi; cases hi
+  refine ⟨e, he, hn, C15_first_wildcard tbl req hne i e ws he (by rw [hn]; exact hm) ?_⟩
+  intro j hj e' he'
+  exact hfirst j hj e'.name (hown j e' (by omega) he')
+
+/-- … and the loaded table has that shape: the task names of the root file of the file map
+are a prefix, in file order, of the names of the resolution table `ofLoad tf` the driver
+(and `Executor.GetTask`) resolves over — for every include graph and every order of merging. -/
+theorem C15_parent_first_load (fm : TaskModel.Load.FileMap) (root : Nat) (tf : TaskModel.Load.Taskfile)
+    (h : TaskModel.Load.load fm root = .ok tf) :
+    ∃ f, TaskModel.Load.Store.get root fm = some f ∧
+      f.tasks.names.map toStr <+: (ofLoad tf).map (·.name) := by
+  obtain ⟨f, hf, hp⟩ := TaskModel.Load.load_root_prefix fm root tf h
+  refine ⟨f, hf, ?_⟩
+  rw [ofLoad_names]
+  obtain ⟨r, hr⟩ := hp
+  exact ⟨r.map toStr, by rw [← hr, List.map_append]⟩
+
 theorem findAliases_mem (req : Str) (tbl : List Entry) (b i : Nat) :
     i ∈ findAliases req tbl b ↔ ∃ k e, i = b + k ∧ tbl[k]? = some e ∧ req ∈ e.aliases := by
   induction tbl generalizing b with
@@ -427,6 +479,12 @@ example : resolve tbl ['s','t','x'] = .found 2 [['x']] := by decide
 example : resolve tbl ['b'] = .conflict [0, 2] := by decide
 example : resolve tbl ['a','X','b'] = .notFound := by decide   -- '.' is literal
 example : wildcardMatch ['s','*','-','*'] ['s','a','-','b','-','c'] = some [['a','-','b'],['c']] := by decide
+/-- parent first: root file `[s*-*, x]` merged with an included `n:st*`-like later entry `st*`:
+`st-x` goes to the root's pattern (index 1 of `tbl`), not to the later `st*` -/
+example : ∃ e, tbl[1]? = some e ∧ e.name = ['s','*','-','*'] ∧ resolve tbl ['s','t','-','x'] = .found 1 [['t'],['x']] :=
+  C15_parent_first tbl [['b','u','i','l','d'], ['s','*','-','*']] ⟨[['s','t','*'], ['a','.','b']], by decide⟩
+    ['s','t','-','x'] (by decide) 1 _ _ (by decide) (by decide) (by decide)
+
 /-- `task build nosuch stx`: refused with 200, nothing runs (not even `build`); `task build stx` runs 0 then 2 -/
 example : runCheck tbl [['b','u','i','l','d'], ['n','o'], ['s','t','x']] = .refused 200 := by decide
 example : runCheck tbl [['b','u','i','l','d'], ['s','t','x']] = .ran [0, 2] := by decide
